@@ -36,6 +36,7 @@ import (
 	"context"
 	"errors"
 	"fmt"
+	"os"
 	"sort"
 	"strings"
 	"sync"
@@ -96,6 +97,9 @@ type c43Spec struct {
 type c43Env struct {
 	CleanupMs int       `json:"cleanup_ms"`
 	Clients   []c43Spec `json:"clients"`
+	// coordinator restart / fail-over at this instant (0 = never): a new GroupCoordinator over the
+	// same store; the group is re-loaded (with its persisted heartbeat times) by the next request
+	RestartAtMs int `json:"restart_at_ms,omitempty"`
 }
 
 type c43Opts struct {
@@ -139,6 +143,11 @@ type c43Result struct {
 type c43Sim struct {
 	c         *GroupCoordinator
 	fs        *c43FaultStore
+	brk       protocol.MetadataBroker
+	restarted bool
+	unloaded  bool          // restarted and no request has re-loaded the group yet (nothing sweeps it)
+	lastLoad  time.Duration // instant of the request that re-loaded the group
+	dirty     bool          // an injected write fault left the store behind the memory
 	ctx       context.Context
 	env       c43Env
 	opts      c43Opts
@@ -208,6 +217,12 @@ func (s *c43Sim) peek() c43WB {
 	defer s.c.mu.Unlock()
 	w := c43WB{members: map[string]int32{}}
 	st, ok := s.c.groups[c43Group]
+	if !ok && s.unloaded {
+		// after a restart the group is what the store holds until a request loads it
+		if rec, err := s.fs.InMemoryStore.FetchConsumerGroup(context.Background(), c43Group); err == nil && rec != nil {
+			st, ok = restoreGroupState(rec), true
+		}
+	}
 	if !ok || st == nil || len(st.members) == 0 {
 		return w
 	}
@@ -364,6 +379,8 @@ func (s *c43Sim) join(c *c43Client) {
 	req.Protocols = append(req.Protocols, p)
 	_, wasMember := s.prev.members[c.id]
 	s.firstJoin = c.id == "" || !wasMember || c.gen != s.prev.gen
+	s.markLoaded()
+	faultsBefore := s.fs.faults
 	resp, err := s.c.JoinGroup(ctx, req)
 	s.fs.mu.Lock()
 	s.fs.armed = false
@@ -384,6 +401,11 @@ func (s *c43Sim) join(c *c43Client) {
 	c.id = resp.MemberID
 	c.gen = resp.Generation
 	c.joinedOnce = true
+	if s.fs.faults > faultsBefore {
+		s.dirty = true
+	} else if resp.ErrorCode != protocol.UNKNOWN_SERVER_ERROR {
+		s.dirty = false
+	}
 	switch resp.ErrorCode {
 	case protocol.NONE:
 		c.st, c.next = c43StSyncing, now+c43Ms(c.LatMs)
@@ -437,6 +459,7 @@ func (s *c43Sim) sync(c *c43Client) {
 	req.Group = c43Group
 	req.Generation = c.gen
 	req.MemberID = c.id
+	s.markLoaded()
 	resp, err := s.c.SyncGroup(s.ctx, req)
 	c.lastReq = now
 	if err != nil || resp == nil {
@@ -447,6 +470,7 @@ func (s *c43Sim) sync(c *c43Client) {
 	s.res.classes[fmt.Sprintf("sync/code%d", resp.ErrorCode)]++
 	switch resp.ErrorCode {
 	case protocol.NONE:
+		s.dirty = false
 		c.st = c43StStable
 		c.next = c.lastRefReq + c43Ms(c.HMs)
 		if c.next <= now {
@@ -466,6 +490,7 @@ func (s *c43Sim) heartbeat(c *c43Client) {
 	req.Group = c43Group
 	req.Generation = c.gen
 	req.MemberID = c.id
+	s.markLoaded()
 	resp := s.c.Heartbeat(s.ctx, req)
 	c.lastReq, c.lastRefReq = now, now
 	if resp == nil {
@@ -476,6 +501,7 @@ func (s *c43Sim) heartbeat(c *c43Client) {
 	s.res.classes[fmt.Sprintf("hb/code%d", resp.ErrorCode)]++
 	switch resp.ErrorCode {
 	case protocol.NONE:
+		s.dirty = false
 		c.rejoinAt = 0
 		c.next = now + c43Ms(c.HMs)
 	case protocol.UNKNOWN_MEMBER_ID:
@@ -507,6 +533,7 @@ func (s *c43Sim) leave(c *c43Client) {
 	req := kmsg.NewPtrLeaveGroupRequest()
 	req.Group = c43Group
 	req.MemberID = c.id
+	s.markLoaded()
 	resp := s.c.LeaveGroup(s.ctx, req)
 	code := int16(-1)
 	if resp != nil {
@@ -553,8 +580,56 @@ func (s *c43Sim) die(c *c43Client, w c43WB) {
 	s.tr("c%d goes silent (last request at %s, phase %s, survivors %d)", c.idx, c.lastReq, c43Phase(w.phase), survivors)
 }
 
+// markLoaded: the request about to be sent makes a restarted coordinator load the group.
+// Silent members are judged by their real last request, but the sweep can only run from now.
+func (s *c43Sim) markLoaded() {
+	if !s.unloaded {
+		return
+	}
+	s.unloaded = false
+	s.lastLoad = s.now()
+	s.res.classes["restart/group-reloaded-by-request"]++
+	for _, c := range s.cl {
+		if c.st == c43StDead && !c.gone && c.id != "" {
+			at := s.lastLoad + s.interval + time.Millisecond
+			if b := c.lastReq + c43Ms(c.SessMs) + s.interval + time.Millisecond; b > at {
+				at = b
+			}
+			c.checkAt, c.checked = at, false
+			s.res.classes["restart/dead-member-rechecked-after-reload"]++
+			s.res.feats["dead-member-across-restart"] = true
+		}
+	}
+}
+
+func (s *c43Sim) restart() {
+	s.restarted = true
+	rec, err := s.fs.InMemoryStore.FetchConsumerGroup(context.Background(), c43Group)
+	// VF_C43_RESTART_ANY=1 (exploration only, not used by any leg) also restarts in mid-rebalance
+	if err != nil || (rec != nil && rec.GetState() != groupStateStableStr && os.Getenv("VF_C43_RESTART_ANY") == "") {
+		s.res.classes["restart/skipped-persisted-group-in-rebalance"]++
+		return
+	}
+	if s.dirty {
+		s.res.classes["restart/skipped-store-behind-after-write-fault"]++
+		return
+	}
+	s.c.Stop()
+	s.c = NewGroupCoordinator(s.fs, s.brk, &CoordinatorConfig{CleanupInterval: s.interval})
+	synctest.Wait()
+	s.unloaded = rec != nil
+	s.nextTick = s.now() + s.interval
+	s.tr("coordinator restarted (persisted group: %v)", rec != nil)
+	s.res.classes["restart/done"]++
+	s.res.feats["restart"] = true
+}
+
 func (s *c43Sim) checkGone(c *c43Client, w c43WB) {
 	c.checked = true
+	if s.unloaded {
+		s.res.classes["liveness-check/deferred-group-not-loaded"]++
+		return
+	}
 	if _, member := w.members[c.id]; member {
 		s.violate("liveness-session: client %d sent its last request at %s with session timeout %dms; at %s (+cleanup interval %s +1ms) it is still a member", c.idx, c.lastReq, c.SessMs, s.now(), s.interval)
 		return
@@ -586,8 +661,9 @@ func c43Simulate(t *testing.T, env c43Env, opts c43Opts) *c43Result {
 		s := &c43Sim{ctx: context.Background(), env: env, opts: opts, res: res, t0: time.Now(), interval: c43Ms(env.CleanupMs)}
 		s.nextTick = s.interval
 		s.fs = &c43FaultStore{InMemoryStore: store}
+		s.brk = brk
 		s.c = NewGroupCoordinator(s.fs, brk, &CoordinatorConfig{CleanupInterval: s.interval})
-		defer s.c.Stop()
+		defer func() { s.c.Stop() }()
 		horizon := time.Duration(0)
 		for i, sp := range env.Clients {
 			c := &c43Client{c43Spec: sp, idx: i, off: time.Duration(137+13*i) * time.Microsecond}
@@ -672,6 +748,9 @@ func c43Simulate(t *testing.T, env c43Env, opts c43Opts) *c43Result {
 			if kind == "" || at > horizon {
 				break
 			}
+			if ra := c43Ms(env.RestartAtMs) + 71*time.Microsecond; env.RestartAtMs > 0 && !s.restarted && ra < at {
+				who, kind, at = nil, "restart", ra
+			}
 			if tk := s.nextTick + 7*time.Microsecond; tk < at {
 				who, kind, at = nil, "tick", tk
 			}
@@ -690,6 +769,8 @@ func c43Simulate(t *testing.T, env c43Env, opts c43Opts) *c43Result {
 			}
 			w := s.observe(-1)
 			switch kind {
+			case "restart":
+				s.restart()
 			case "fate":
 				if who.Fate == c43FateDie {
 					s.die(who, w)
@@ -741,7 +822,7 @@ func c43Simulate(t *testing.T, env c43Env, opts c43Opts) *c43Result {
 // timeout) go silent around the instant a late joiner N starts a rebalance; A (optional)
 // keeps running and re-joins quickly.
 func c43DrawCoincidence(t *rapid.T) c43Env {
-	env := c43Env{CleanupMs: rapid.SampledFrom([]int{5000, 5000, 3000, 2000}).Draw(t, "cleanup")}
+	env := c43Env{CleanupMs: rapid.SampledFrom([]int{5000, 5000, 3000, 2000, 1000, 1000}).Draw(t, "cleanup")}
 	rt := rapid.SampledFrom([]int{5000, 10000}).Draw(t, "reb")
 	tN := rapid.SampledFrom([]int{6000, 8000, 11000, 15000}).Draw(t, "tN") + rapid.IntRange(0, 999).Draw(t, "tNjit")
 	mk := func(sess, frac, start int) c43Spec {
@@ -750,8 +831,9 @@ func c43DrawCoincidence(t *rapid.T) c43Env {
 			base = rt - 500
 		}
 		return c43Spec{SessMs: sess, RebMs: rt, HMs: base * frac / 100,
-			LatMs:   rapid.SampledFrom([]int{5, 20, 50, 100}).Draw(t, "lat"),
-			RetryMs: rapid.SampledFrom([]int{100, 200, 500, 1000}).Draw(t, "retry"),
+			LatMs: rapid.SampledFrom([]int{5, 20, 50, 100}).Draw(t, "lat"),
+			// join polls up to several cleanup passes apart (still far inside session and rebalance timeout)
+			RetryMs: rapid.SampledFrom([]int{100, 200, 500, 1000, 1500, 2500, 3500}).Draw(t, "retry"),
 			StartMs: start}
 	}
 	dieAt := func() int {
@@ -869,6 +951,18 @@ func c43DrawEnv(t *rapid.T, clampHB bool, excluded *int) c43Env {
 			sp.FateMs = sp.StartMs + rapid.SampledFrom([]int{0, 50, 500, 2000, 6000, 12000, 25000, 40000}).Draw(t, "fateafter") + rapid.IntRange(0, 2999).Draw(t, "fatejit")
 		}
 		env.Clients = append(env.Clients, sp)
+	}
+	// coordinator restart: never | shortly after some client went silent | anywhere
+	switch rapid.SampledFrom([]int{0, 0, 0, 1, 1, 2}).Draw(t, "restart") {
+	case 1:
+		for _, sp := range env.Clients {
+			if sp.Fate == c43FateDie {
+				env.RestartAtMs = sp.FateMs + rapid.SampledFrom([]int{300, 1000, 2500, 6000, 12000}).Draw(t, "restartafter")
+				break
+			}
+		}
+	case 2:
+		env.RestartAtMs = rapid.SampledFrom([]int{3000, 8000, 15000, 25000, 40000}).Draw(t, "restartat") + rapid.IntRange(0, 999).Draw(t, "restartjit")
 	}
 	return env
 }
